@@ -286,7 +286,7 @@ def rows(path):
 
 def main():
     only = sys.argv[sys.argv.index('--round') + 1] if '--round' in sys.argv else None
-    results = {'1': {}, '2': {}, '3': {}, '4': {}, '5': {}, '6': {}, '7': {}, '8': {}, '9': {}, '10': {}, '11': {}, '12': {}, '13': {}, '14': {}}
+    results = {'1': {}, '2': {}, '3': {}, '4': {}, '5': {}, '6': {}, '7': {}, '8': {}, '9': {}, '10': {}, '11': {}, '12': {}, '13': {}, '14': {}, '15': {}}
     for p in ['/var/tmp/results1.tsv', os.path.join(S, '_incoming', 'RESULTS.tsv'), '/var/tmp/results2.tsv']:
         results['1'].update(rows(p))
     results['2'].update(rows(os.path.join(S, '_incoming2', 'RESULTS.tsv')))
@@ -302,9 +302,10 @@ def main():
     results['12'].update(rows(os.path.join(S, '_incoming12', 'RESULTS.tsv')))
     results['13'].update(rows(os.path.join(S, '_incoming13', 'RESULTS.tsv')))
     results['14'].update(rows(os.path.join(S, '_incoming14', 'RESULTS.tsv')))
+    results['15'].update(rows(os.path.join(S, '_incoming15', 'RESULTS.tsv')))
     dropped = []
     kept = []
-    for rnd, src in (('1', '_incoming'), ('2', '_incoming2'), ('3', '_incoming3'), ('4', '_incoming4'), ('5', '_incoming5'), ('6', '_incoming6'), ('7', '_incoming7'), ('8', '_incoming8'), ('9', '_incoming9'), ('10', '_incoming10'), ('11', '_incoming11'), ('12', '_incoming12'), ('13', '_incoming13'), ('14', '_incoming14')):
+    for rnd, src in (('1', '_incoming'), ('2', '_incoming2'), ('3', '_incoming3'), ('4', '_incoming4'), ('5', '_incoming5'), ('6', '_incoming6'), ('7', '_incoming7'), ('8', '_incoming8'), ('9', '_incoming9'), ('10', '_incoming10'), ('11', '_incoming11'), ('12', '_incoming12'), ('13', '_incoming13'), ('14', '_incoming14'), ('15', '_incoming15')):
         if only is not None and rnd != only:
             continue
         base = os.path.join(S, src)
@@ -320,7 +321,7 @@ def main():
                     continue
                 key = f'{prop}/{m}'
                 r = results[rnd].get(key)
-                # m1,m2 = round 1; m3,m4 = round 2; m5,m6 = round 3; m7,m8 = round 4; m9,m10 = round 5; m11,m12 = round 6; m13,m14 = round 7; m15,m16 = round 8; m17,m18 = round 9; m19,m20 = round 10; m21,m22 = round 11; m23,m24 = round 12; m25,m26 = round 13; m27,m28 = round 14
+                # m1,m2 = round 1; m3,m4 = round 2; m5,m6 = round 3; m7,m8 = round 4; m9,m10 = round 5; m11,m12 = round 6; m13,m14 = round 7; m15,m16 = round 8; m17,m18 = round 9; m19,m20 = round 10; m21,m22 = round 11; m23,m24 = round 12; m25,m26 = round 13; m27,m28 = round 14; m29,m30 = round 15
                 name = f'{prop}-m{int(m[1:]) + 2 * (int(rnd) - 1)}'
                 if r is None:
                     dropped.append((name, 'not re-confirmed yet'))
